@@ -780,6 +780,23 @@ def _generate_product_inputs(
         }
 
 
+def add_graph_node_emit_signals(node: GraphNode, outputs: dict[str, Any]) -> dict[str, Any]:
+    """Produce the emit sentinel for a completed GraphNode's ordering-only outputs.
+
+    The nested run's result never carries emit sentinels (they are filtered out
+    of RunResult.values), so the wrapper re-emits them itself, exactly as
+    wrap_outputs does for function nodes: waiters in the enclosing graph see
+    the signal, and it never shows up as a value.
+    """
+    from hypergraph.nodes.base import _EMIT_SENTINEL
+
+    data_outputs = set(node.data_outputs)
+    for name in node.outputs:
+        if name not in data_outputs:
+            outputs[name] = _EMIT_SENTINEL
+    return outputs
+
+
 def collect_as_lists(
     results: list[RunResult],
     node: GraphNode,
